@@ -2,8 +2,8 @@
 //@ATTR anchor: pub fn calculate_cost(distance: f32, inverted: bool) -> f32 {
 //@ATTR after: impl Universal2DBoxKalmanFilter {
 //@ATTR requires: distance >= 0.0 && distance.is_finite()
-//@ATTR ensures C07/box.direct_form: |r: &f32| verif_kani_kalman_box_cost::post_direct(distance, inverted, *r)
-//@ATTR ensures C07/box.inverted_form: |r: &f32| verif_kani_kalman_box_cost::post_inverted(distance, inverted, *r)
+//@ATTR ensures C07,C02/box.direct_form: |r: &f32| verif_kani_kalman_box_cost::post_direct(distance, inverted, *r)
+//@ATTR ensures C07,C02/box.inverted_form: |r: &f32| verif_kani_kalman_box_cost::post_inverted(distance, inverted, *r)
 //@ATTR end
 use super::*;
 
@@ -25,8 +25,8 @@ fn c07_box_cost_contract() {
     let inv: bool = kani::any();
     let r = Universal2DBoxKalmanFilter::calculate_cost(d, inv);
     kani::cover!(true, "reach/c07_box_cost_contract");
-    assert!(post_direct(d, inv, r), "C07/box.direct_form: direct cost is d below the 95% gate of 5 dof and the upper bound above it");
-    assert!(post_inverted(d, inv, r), "C07/box.inverted_form: inverted cost is 100-d below the same gate and 0 above it");
+    assert!(post_direct(d, inv, r), "C07,C02/box.direct_form: direct cost is d below the 95% gate of 5 dof and the upper bound above it");
+    assert!(post_inverted(d, inv, r), "C07,C02/box.inverted_form: inverted cost is 100-d below the same gate and 0 above it");
 }
 
 //@H props=C07,C02 kind=proof tier=quick stubs=no fn=Universal2DBoxKalmanFilter::calculate_cost
@@ -39,5 +39,5 @@ fn c07_box_cost_lemma() {
     let direct = Universal2DBoxKalmanFilter::calculate_cost(d, false);
     let inverted = Universal2DBoxKalmanFilter::calculate_cost(d, true);
     kani::cover!(true, "reach/c07_box_cost_lemma");
-    assert!(inverted == CHI2_UPPER_BOUND - direct, "C07/box.lemma.inverted_is_upper_minus_direct: inverted == 100 - direct follows from the contract");
+    assert!(inverted == CHI2_UPPER_BOUND - direct, "C07,C02/box.lemma.inverted_is_upper_minus_direct: inverted == 100 - direct follows from the contract");
 }
